@@ -563,6 +563,8 @@ class Hist:
         for spec in ([op] if kind == "set_bounds" else op.get("rxns", []) if kind == "add_reactions" else []):
             if spec.get("lb") == INF or spec.get("ub") == -INF:
                 raise Skip("bound outside the domain")
+        if kind == "remove_reactions" and op.get("own_list"):
+            op["rs"] = sorted(ref.rxns)  # the model's own list is the argument: it names every reaction, whatever a shrunk trace says
         if kind == "restart" and op.get("fmt") == "sbml":
             if any(not m["compartment"] for m in ref.mets.values()):
                 raise Skip("SBML requires every species to have a compartment")
@@ -1599,7 +1601,7 @@ PROP_BIAS = {
             "tolerance": 0, "compartments": 0, "add_groups": 0, "remove_groups": 0, "set_attr": 0,
             "edit_dict": 0},
     "C07": {"knock_out_gene": 12, "knock_out_model_genes": 8, "knock_out_rxn": 4, "set_functional": 4,
-            "set_rule": 6, "enter": 2, "exit": 3, "removed_mutate": 3, "remove_reactions": 4, "copy": 1},
+            "set_rule": 6, "enter": 2, "exit": 3, "removed_mutate": 3, "remove_reactions": 4, "copy": 1, "pickle": 1, "deepcopy": 1},
     "C04": {"optimize": 14, "slim_optimize": 8, "solver": 2, "set_bounds": 8, "set_objective": 4, "set_direction": 3,
             "set_obj_coef": 3, "add_mets": 4, "add_reactions": 3, "remove_reactions": 2, "add_cons": 2, "add_var": 1,
             "enter": 1, "exit": 2, "copy": 1, "pickle": 1, "add_boundary": 3, "knock_out_gene": 2, "imul": 2},
